@@ -92,7 +92,7 @@ theorem C11_widths : handleWords false = 1 ∧ handleWords true = 2 := by decide
 
 Full-strength statement required by the property text (NOT provable, refuted below):
 
-    theorem C11_thin_as_ptr_is_deref_addr :
+    (full strength)  C11_thin_as_ptr_is_deref_addr :
         thinAsPtr base = thinDerefAddr bits base H T len ∧
         thinIntoRaw base = thinDerefAddr bits base H T len
 
